@@ -128,7 +128,7 @@ def run_case(ctx):
             raise Violation({**sig, "oracle": "poison-differential", "part": "structure"},
                             f"level {lv} header structure depends on uninitialised memory; {what}")
         for (fa, da, ma), (fb, db, mb) in zip(a["boxes"][lv], b["boxes"][lv]):
-            if fa != fb or not np.array_equal(world.bits(da[ma]), world.bits(db[mb])):
+            if fa != fb or not world.same_values(da[ma], db[mb]):
                 raise Violation({**sig, "oracle": "poison-differential", "part": "values"},
                                 f"level {lv} box {fa}: values at pixels with both bracketing samples depend on "
                                 f"uninitialised memory; {what}")
